@@ -1,7 +1,10 @@
 package verifharness
 
 import (
+	"bytes"
 	"fmt"
+	"io"
+	"net/http"
 	"regexp"
 	"sort"
 	"sync"
@@ -24,6 +27,29 @@ func worldSessions(w *World) {
 		"transport":       map[string]any{"tcpMux": tcpMux, "heartbeatTimeout": -1},
 		"allowPorts":      []map[string]any{{"start": 20000, "end": 20019}},
 		"userConnTimeout": 3,
+	}
+	// optionally a server plugin is consulted for registrations and holds those of proxies called "slow-..." for a
+	// few seconds: the session that sent one is busy, its teardown (when it is replaced meanwhile) takes that long
+	stuckFor := time.Duration(0)
+	if w.KnobBool("slow_plugin", 50) {
+		stuckFor = time.Duration(w.KnobPick("slow_plugin_s", 2, 3, 5)) * time.Second
+		restore := w.PlugN.Enter()
+		pln, perr := w.Net.Listen("tcp", "10.0.4.1:9800")
+		restore()
+		if perr != nil {
+			w.Fail("%v", perr)
+		}
+		w.PlugN.Go(func() {
+			(&http.Server{Handler: http.HandlerFunc(func(rw http.ResponseWriter, req *http.Request) {
+				body, _ := io.ReadAll(req.Body)
+				if bytes.Contains(body, []byte(`"proxy_name":"slow-`)) {
+					time.Sleep(stuckFor)
+				}
+				rw.Header().Set("Content-Type", "application/json")
+				rw.Write([]byte(`{"reject":false,"unchange":true}`))
+			})}).Serve(pln)
+		})
+		scfg["httpPlugins"] = []map[string]any{{"name": "slow", "addr": "10.0.4.1:9800", "path": "/handler", "ops": []string{"NewProxy"}}}
 	}
 	env := w.newLcEnv(scfg, token, PeerOpts{Server: "10.0.0.1:7000", Mux: tcpMux, Token: token})
 	env.start()
@@ -254,18 +280,50 @@ func worldSessions(w *World) {
 			}
 			sort.Strings(mine)
 			k := r.Range(2, 3)
-			hist("%s: %d concurrent re-logins with run id %s", s.c.Name, k, s.runID)
+			// with the slow plugin: the old session is busy in a registration when the re-logins arrive one after
+			// the other, each while its predecessor is still waiting for the old session to go
+			stuck := stuckFor > 0 && r.Intn(3) > 0
+			hist("%s: %d concurrent re-logins with run id %s (old session stuck in a registration: %v)", s.c.Name, k, s.runID, stuck)
 			w.Probe("sessions.concurrent_relogin")
+			stagger := make([]time.Duration, k)
+			if stuck {
+				w.Probe("sessions.relogin_chain_behind_stuck_session")
+				s.c.Send(tNewProxy, M{"proxy_name": fmt.Sprintf("slow-%d", i), "proxy_type": "tcp", "remote_port": 20019})
+				time.Sleep(time.Duration(r.Range(100, 400)) * time.Millisecond)
+				for j := 1; j < k; j++ {
+					stagger[j] = stagger[j-1] + time.Duration(r.Range(50, 600))*time.Millisecond
+				}
+			}
 			cands := make([]*lcClient, k)
 			resps := make([]M, k)
 			errs := make([]error, k)
+			aliveAtAck := make([]string, k)
 			var wg sync.WaitGroup
 			for j := 0; j < k; j++ {
 				cands[j] = s.c.fresh()
 				wg.Add(1)
-				go func(j int) { defer wg.Done(); resps[j], errs[j] = cands[j].login(s.runID) }(j)
+				go func(j int) {
+					defer wg.Done()
+					time.Sleep(stagger[j])
+					resps[j], errs[j] = cands[j].login(s.runID)
+					if errs[j] == nil && mstr(resps[j], "error") == "" {
+						// acknowledged: at this very step the previous session's proxies must be gone
+						bound := env.frpsTCPPorts()
+						for _, n := range mine {
+							if bound[portOfName(n)] {
+								aliveAtAck[j] = n
+							}
+						}
+					}
+				}(j)
 			}
 			wg.Wait()
+			w.Check("C12.relogin-old-gone-at-ack")
+			for j, n := range aliveAtAck {
+				if n != "" {
+					viol("relogin", "old-proxy-alive-at-ack", "re-login %d of %d with one run id was acknowledged while proxy %s of the previous session is still bound (old session stuck in a registration: %v); history: %v", j+1, k, n, stuck, history)
+				}
+			}
 			for _, n := range mine {
 				delete(owner, n)
 			}
